@@ -341,9 +341,10 @@ def run_params(acc):
 
 # ----------------------------------------------------------------------------- activation histories of parameterised contexts
 
-PH_LINES = BASE_LINES + ["[E] = [A] / [B]", "ue = ua / ub", "ke = 10 * ue"] + [
+PH_LINES = BASE_LINES + ["[E] = [A] / [B]", "ue = ua / ub", "ke = 10 * ue", "kz = 10 * ue", "kzz = 2 * kz"] + [
     "@context(n=101) t1 = t1x",
     "    [E] -> [C]: value * 3 * n * uc / ue",
+    "    kz = 30 * ue",
     "@end",
     "@context t0",
     "    [E] -> [A]: value * 11 * ua / ue",
@@ -351,6 +352,8 @@ PH_LINES = BASE_LINES + ["[E] = [A] / [B]", "ue = ua / ub", "ke = 10 * ue"] + [
 ]
 # context -> (target unit, prime, declared default of n or None)
 PH_CTX = {"t1": ("uc", 3, 101), "t0": ("ua", 11, None), "g1": ("ud", 5, 211), "g0": ("ub", 7, None)}
+# what 1 kz is worth in ue while the context is active (t1 and g1 redefine kz; kzz = 2 kz follows transitively)
+PH_KZ = {"t1": 30, "t0": 10, "g1": 50, "g0": 10}
 PH_K = 103
 
 
@@ -362,6 +365,7 @@ def ph_registry():
     ureg = regs.tiny(PH_LINES, non_int_type="Fraction")
     g1 = pint.Context("g1", defaults={"n": 211})
     g1.add_transformation("[E]", "[D]", lambda ureg, x, n, **kw: x * 5 * n * ureg.Quantity(1, "ud/ue"))
+    g1.redefine("kz = 50 * ue")
     ureg.add_context(g1)
     g0 = pint.Context("g0")
     g0.add_transformation("[E]", "[B]", lambda ureg, x, **kw: x * 7 * ureg.Quantity(1, "ub/ue"))
@@ -387,27 +391,28 @@ def ph_events():
 
 
 def ph_apply(ureg, ev):
-    """-> (observed, expected) magnitudes of converting 1 ue with the event's context active"""
+    """-> (observed, expected): [rule conversion of 1 ue, 1 kz in ue, 1 kzz in ue] with the event's context active"""
     Q = ureg.Quantity
     form, c, k = ev
     if form == "nested":
         outer, inner = c, k
         tgt, p, dflt = PH_CTX[inner]
         want = p * (107 if dflt is not None else 1)
+        kz = PH_KZ[inner] if PH_KZ[inner] != 10 else PH_KZ[outer]  # the innermost redefinition wins, else the outer one still holds
         with ureg.context(outer, n=107):
             with ureg.context(inner):
-                return Q(1, "ue").to(tgt).magnitude, want
+                return [Q(1, "ue").to(tgt).magnitude, Q(1, "kz").to("ue").magnitude, Q(1, "kzz").to("ue").magnitude], [want, kz, 2 * kz]
     tgt, p, dflt = PH_CTX[c]
-    want = p * ((k if k is not None else dflt) if dflt is not None else 1)
+    want = [p * ((k if k is not None else dflt) if dflt is not None else 1), PH_KZ[c], 2 * PH_KZ[c]]
     kw = {} if k is None else {"n": k}
     if form == "to":
-        return Q(1, "ue").to(tgt, c, **kw).magnitude, want
+        return [Q(1, "ue").to(tgt, c, **kw).magnitude, Q(1, "kz").to("ue", c, **kw).magnitude, Q(1, "kzz").to("ue", c, **kw).magnitude], want
     if form == "with":
         with ureg.context(c, **kw):
-            return Q(1, "ke").to(tgt).magnitude / 10, want
+            return [Q(1, "ke").to(tgt).magnitude / 10, Q(1, "kz").to("ue").magnitude, Q(1, "kzz").to("ue").magnitude], want
     ureg.enable_contexts(c, **kw)
     try:
-        return Q(1, "ue").to(tgt).magnitude, want
+        return [Q(1, "ue").to(tgt).magnitude, Q(1, "kz").to("ue").magnitude, Q(1, "kzz").to("ue").magnitude], want
     finally:
         ureg.disable_contexts()
 
@@ -428,7 +433,7 @@ def run_param_histories(acc, depth, first):
                 if ureg._active_ctx.contexts:
                     ureg.disable_contexts()
                 if o[0] != "ok" or o[1][0] != o[1][1]:
-                    kind = "raises" if o[0] != "ok" else "wrong-parameter-value-or-rule-used"
+                    kind = "raises" if o[0] != "ok" else ("wrong-parameter-value-or-rule-used" if o[1][0][0] != o[1][1][0] else "redefinition-not-in-force")
                     acc.violation(["activation-history", ev[0], kind, "first-activation" if i == 0 else "after-" + hist[i - 1][0] + ("(n=)" if hist[i - 1][2] not in (None,) and hist[i - 1][0] != "nested" else "")],
                                   {"history": [list(e) for e in hist], "step": i}, o[1][1] if o[0] == "ok" else "a number", repr(o[1][0] if o[0] == "ok" else o[1]))
                     break
@@ -438,6 +443,9 @@ def run_param_histories(acc, depth, first):
             o = call(lambda: ureg.Quantity(1, "ue").to("uc"))
             if o[0] != "exc" or o[1] != "DimensionalityError":
                 acc.violation(["activation-history", "outside", "conversion-allowed-with-no-context-active", ""], {"history": [list(e) for e in hist]}, "DimensionalityError", repr(o))
+            o = call(lambda: [ureg.Quantity(1, "kz").to("ue").magnitude, ureg.Quantity(1, "kzz").to("ue").magnitude])
+            if o != ("ok", [10, 20]):
+                acc.violation(["activation-history", "outside", "redefinition-still-in-force-with-no-context-active", ""], {"history": [list(e) for e in hist]}, [10, 20], repr(o))
     acc.outcome("activation-histories")
     acc.sample({"clause": "activation-history", "history": [["to", "g1", 103], ["with", "g1", None]], "expected": [5 * 103, 5 * 211]})
 
@@ -662,7 +670,7 @@ MANIFEST = {
     "per-call and in a with-block, with the compatibility predicates): the exact result must be the prime product of SOME shortest chain, same-dimension conversions must be unchanged, unreachable targets must raise "
     "DimensionalityError, and nothing may remain available outside. All ordered pairs of the 79 contexts with <=2 rules (thorough: all ordered triples of the 13 with <=1) are stacked through 4 activation forms with "
     "per-(context, edge) primes, deciding 'most recent wins'. Parameter resolution (call keyword > enclosing context > declared default) is checked with prime-valued parameters through every form including the "
-    "decorator and context objects, and over ALL activation histories up to depth 3 (4) of 21 events on a registry whose four contexts (two declared in text, two built with Context()/add_context) start their rules at a derived dimension written by name: each activation, in each form, with or without its own parameter value, after every possible earlier activation, must convert with its own parameter and leave nothing active; redefinitions with transitive dependents inside/outside/nested and on re-entry; every rule of the 7 bundled contexts is re-evaluated from its equation text with R1 monomials.",
+    "decorator and context objects, and over ALL activation histories up to depth 3 (4) of 21 events on a registry whose four contexts (two declared in text, two built with Context()/add_context) start their rules at a derived dimension written by name: each activation, in each form, with or without its own parameter value, after every possible earlier activation, must convert with its own parameter, have its unit redefinition (and the units defined from it) in force, and leave nothing active or redefined; redefinitions with transitive dependents inside/outside/nested and on re-entry; every rule of the 7 bundled contexts is re-evaluated from its equation text with R1 monomials.",
     "note": "Trusted: the 40-line BFS reference and unique factorisation; R1 for bundled constants. Not asserted: which of several equally short chains is taken; which enclosing context supplies a parameter "
     "when several differ; compatible-unit listings under a context. Graphs with more than 4 rules or more than 4 dimensionalities are outside the bound.",
     "ref": "DESIGN.md §4 C11",
